@@ -29,7 +29,7 @@ TECHNIQUE = ("deterministic simulation: seeded call sequences with per-step cons
 
 def budget(tier):
     if tier == "thorough":
-        return {"runs": 1200, "wall": 3000}
+        return {"runs": 600, "wall": 3000}
     return {"runs": 192, "wall": 600}
 
 
